@@ -53,9 +53,9 @@ def check_coarse(case):
         kps.append((rng.choice([rng.uniform(0, W - 0.01), float(rng.randint(0, W - 1)), rng.randint(0, W - 1) + 0.5]),
                     rng.choice([rng.uniform(0, H - 0.01), float(rng.randint(0, H - 1)), rng.randint(0, H - 1) + 0.5]),
                     rng.choice([rng.uniform(0, D - 0.01), float(rng.randint(0, D - 1)), rng.randint(0, D - 1) + 0.5]), i))
-    pipe = A.ReplayCompose([A.CoarseDropout(p=1.0, **kw)], keypoint_params=A.KeypointParams('xyz'))
     R.seed(case['seed'])
     try:
+        pipe = A.ReplayCompose([A.CoarseDropout(p=1.0, **kw)], keypoint_params=A.KeypointParams('xyz'))
         res = pipe(image=img, mask=mask, keypoints=kps)
     except Exception as e:  # noqa
         return ('raises', '%s: %s' % (type(e).__name__, str(e)[:120]), 'runs (documented configuration)')
@@ -100,9 +100,9 @@ def check_grid(case):
     rs = np.random.RandomState(case['seed'] % 99991)
     img = image_of(shape, case['dtype'], rs, case.get('channels'))
     mask = rs.randint(1, 5, shape).astype(np.uint8)
-    pipe = A.ReplayCompose([A.GridDropout(p=1.0, **kw)])
     R.seed(case['seed'])
     try:
+        pipe = A.ReplayCompose([A.GridDropout(p=1.0, **kw)])
         res = pipe(image=img, mask=mask)
     except ValueError:
         return None         # documented rejections (limits vs. image size)
@@ -165,9 +165,9 @@ def check_pixel(case):
     rs = np.random.RandomState(case['seed'] % 99991)
     img = image_of(shape, case['dtype'], rs, case.get('channels'))
     mask = rs.randint(1, 5, shape).astype(np.uint8)
-    pipe = A.ReplayCompose([A.PixelDropout(p=1.0, **kw)])
     R.seed(case['seed'])
     try:
+        pipe = A.ReplayCompose([A.PixelDropout(p=1.0, **kw)])
         res = pipe(image=img, mask=mask)
     except Exception as e:  # noqa
         return ('raises', '%s: %s' % (type(e).__name__, str(e)[:120]), 'runs')
